@@ -169,6 +169,18 @@ class C06(Check):
                 oracle.compare_ref(J, df2, view="polars" if kind == "polars" else "sql")
                 out.count(f"join_compared:{kind}")
             except oracle.Mismatch as mm:
+                if kind == "polars":
+                    # a wrong answer of the Polars optimizer (DESIGN 4.15 b): the same plan collected without it agrees
+                    try:
+                        d3 = build.export_polars_noopt(b.vars[jv])
+                        d3 = d3.rename(dict(zip(list(d3.columns), J.names()))) if list(d3.columns) != J.names() else d3
+                        oracle.compare_ref(J, d3, view="polars")
+                        out.count("engine_quirk:polars_optimizer")
+                        continue
+                    except BaseException as ex3:  # noqa: BLE001
+                        from ..pipeline_oracle import reraise_control
+
+                        reraise_control(ex3)
                 out.fail("mismatch", f"{kind}:join:{mm.kind}:{jstep.get('how')}", f"{kind} join result vs reference: {mm}")
         # non-triviality
         matched = J.n > 0
